@@ -102,6 +102,12 @@ def _build(case):
     if "share_encoders" in case:
         kw["share_encoders"] = case["share_encoders"]
     agentops.seed_all(case["seed"])
+    if case.get("alt_lr"):
+        # (C07) the agent a checkpoint is loaded INTO was built with other learning rates than the saved one
+        names = [n for n in ("lr", "lr_actor", "lr_critic") if n in __import__("inspect").signature(zoo.algo_cls(case["algo"]).__init__).parameters]
+        kw.update({n: v for n, v in zip(names, (7e-4, 6e-4)) })
+        if "lr_critic" in names:
+            kw["lr_critic"] = 5e-4
     if case["algo"] in zoo.MULTI and case["seed"] % 2:
         # agents of one policy / name group interleaved with another group
         kw["agent_ids"] = ["agent_0", "other_0", "agent_1"]
